@@ -273,8 +273,10 @@ theorem insertNone_cases {s : Slots} (h : WF s) :
       · exact a2 x hx
     · rw [c5]; exact a3
     · rw [c5, c7]; exact a4
-    · omega
-    · omega
+    · show 1 ≤ s'.next
+      omega
+    · show s'.next ≤ s'.max + 1
+      omega
     · rw [c4, c5, c6]
       intro x hx1 hx2
       by_cases hx : x < s.next
